@@ -169,7 +169,9 @@ pub fn vsimulate(m: &VMachine, k0: u64) -> (Vec<(String, u64)>, u64) {
 
 /// third family: two payload fields, guards that compare them, updates that subtract, move or swap them
 #[derive(Clone, Debug)]
-pub struct TMachine { pub branches: Vec<usize>, pub out: usize, pub arrow: &'static str, pub shape: String }
+pub struct TMachine { pub branches: Vec<usize>, pub out: usize, pub arrow: &'static str, pub shape: String, /// arms of :S placed before the general arm :S(p, q): a repeated variable, a literal in either field
+  pub pre: Vec<usize> }
+pub const TPRE: [(&str, &str, &str); 3] = [(":S(x, x)", "x + 100u64", "repeated-variable"), (":S(0u64, y)", "y + 200u64", "literal-first"), (":S(x, 0u64)", "x + 300u64", "literal-second")];
 pub const TBRANCH: [(&str, &str, &str); 6] = [
   ("p > q", "p - q, q", "sub-pq"), ("q > p", "p, q - p", "sub-qp"), ("p > 0u64", "p - 1u64, q + 1u64", "move-pq"),
   ("q > 0u64", "p + 1u64, q - 1u64", "move-qp"), ("p > q", "q, p", "swap"), ("p == q", "p - 1u64, q", "dec-on-equal")];
@@ -181,13 +183,21 @@ pub fn tmachines(tier: Tier) -> Vec<TMachine> {
   for a in 0..TBRANCH.len() { sels.push(vec![a]); for b in 0..TBRANCH.len() { if a != b { sels.push(vec![a, b]); } } }
   if tier == Tier::Thorough { for a in 0..TBRANCH.len() { for b in 0..TBRANCH.len() { for c in 0..TBRANCH.len() { if a != b && b != c && a != c && (a + 2 * b + 3 * c) % 4 == 0 { sels.push(vec![a, b, c]); } } } } }
   for sel in sels { for o in 0..TOUT.len() { for arrow in ["->", "~>"] {
-    out.push(TMachine { branches: sel.clone(), out: o, arrow, shape: format!("two-payloads:{}:out-{}:{}", sel.iter().map(|i| TBRANCH[*i].2).collect::<Vec<_>>().join(","), TOUT[o].1, arrow) });
+    out.push(TMachine { branches: sel.clone(), out: o, arrow, pre: vec![], shape: format!("two-payloads:{}:out-{}:{}", sel.iter().map(|i| TBRANCH[*i].2).collect::<Vec<_>>().join(","), TOUT[o].1, arrow) });
+  } } }
+  // arms with a repeated variable or a literal field before the general arm: the first arm whose pattern matches the payload is taken
+  let mut pres: Vec<Vec<usize>> = vec![];
+  for a in 0..TPRE.len() { pres.push(vec![a]); for b in 0..TPRE.len() { if a != b { pres.push(vec![a, b]); } } }
+  for pre in pres { for sel in [vec![0usize, 1], vec![2], vec![3, 0]] { for arrow in ["->", "~>"] {
+    out.push(TMachine { branches: sel.clone(), out: 0, arrow, pre: pre.clone(), shape: format!("two-payloads:arms-{}-before:{}:{}", pre.iter().map(|i| TPRE[*i].2).collect::<Vec<_>>().join(","), sel.iter().map(|i| TBRANCH[*i].2).collect::<Vec<_>>().join(","), arrow) });
   } } }
   out
 }
 
 pub fn trender(m: &TMachine, a: &str, b: &str) -> String {
-  let mut s = String::from("#T(a<u64>, b<u64>) => <u64>\n  ├ :S(p<u64>, q<u64>)\n  └ :D(r<u64>).\n\n#T(a<u64>, b<u64>) -> :S(a, b)\n  :S(p, q)\n");
+  let mut s = String::from("#T(a<u64>, b<u64>) => <u64>\n  ├ :S(p<u64>, q<u64>)\n  └ :D(r<u64>).\n\n#T(a<u64>, b<u64>) -> :S(a, b)\n");
+  for i in &m.pre { s.push_str(&format!("  {} {} :D({})\n", TPRE[*i].0, m.arrow, TPRE[*i].1)); }
+  s.push_str("  :S(p, q)\n");
   for i in &m.branches { s.push_str(&format!("    ├ {} {} :S({})\n", TBRANCH[*i].0, m.arrow, TBRANCH[*i].1)); }
   s.push_str(&format!("    └ * -> :D({})\n  :D(r) => r.\n\nr := #T({})", TOUT[m.out].0, if b.is_empty() { a.to_string() } else { format!("{}, {}", a, b) }));
   s
@@ -198,6 +208,11 @@ pub fn tsimulate(m: &TMachine, a: u64, b: u64, horizon: usize) -> TSim {
   let (mut p, mut q) = (a, b);
   let mut seq = vec![("S".to_string(), vec![p, q])];
   for _ in 0..horizon {
+    if let Some(i) = m.pre.iter().find(|i| match **i { 0 => p == q, 1 => p == 0, _ => q == 0 }) {
+      let out = match *i { 0 => p + 100, 1 => q + 200, _ => p + 300 };
+      seq.push(("D".to_string(), vec![out]));
+      return TSim::Done(seq, out);
+    }
     let hit = m.branches.iter().find(|i| match **i { 0 | 4 => p > q, 1 => q > p, 2 => p > 0, 3 => q > 0, _ => p == q });
     match hit {
       Some(i) => {
